@@ -16,8 +16,8 @@ pub enum Case {
 }
 
 const TEMPLATES: [&str; 4] = ["only", "middle", "after-quoted", "before-quoted"];
-pub const POP: [&str; 7] = ["a", "ab", "b", ".h", "a b", "d", "d/e"];
-pub const PATTERNS: [&str; 10] = ["*", "a*", "*b", ".*", "d/*", "x*", "'*'", "\"a*\"", "*a*", "a*b"];
+pub const POP: [&str; 9] = ["a", "ab", "b", ".h", "a b", "d", "d/e", ".k", ".k/e"];
+pub const PATTERNS: [&str; 11] = ["*", "a*", "*b", ".*", "d/*", "x*", "'*'", "\"a*\"", "*a*", "a*b", "*/e"];
 
 fn wrap(template: usize, word: &str, expansion: &[String]) -> (String, Vec<String>) {
     let mut argv = vec!["vh-argv".to_string()];
@@ -212,26 +212,27 @@ fn glob_reference(pop: u32, pattern: &str) -> Vec<String> {
         return vec![pattern[1..pattern.len() - 1].to_string()];
     }
     let present: Vec<&str> = POP.iter().enumerate().filter(|(i, _)| pop & (1 << i) != 0).map(|(_, s)| *s).collect();
-    let (dir, pat) = match pattern.rfind('/') {
-        Some(i) => (&pattern[..i], &pattern[i + 1..]),
-        None => ("", pattern),
-    };
-    let show_hidden = pat.starts_with(".*");
-    let pc: Vec<char> = pat.chars().collect();
+    // component by component: a literal component names itself, a component with `*` matches non-hidden names
+    // (hidden ones only when it is written `.*...`) -- in every position of the path
+    let pcomps: Vec<&str> = pattern.split('/').collect();
     let mut out: Vec<String> = Vec::new();
     for e in &present {
-        let (edir, name) = match e.rfind('/') {
-            Some(i) => (&e[..i], &e[i + 1..]),
-            None => ("", *e),
-        };
-        if edir != dir {
+        let ecomps: Vec<&str> = e.split('/').collect();
+        if ecomps.len() != pcomps.len() {
             continue;
         }
-        if name.starts_with('.') && !show_hidden {
-            continue;
-        }
-        let nc: Vec<char> = name.chars().collect();
-        if glob_match(&pc, &nc) {
+        let ok = pcomps.iter().zip(ecomps.iter()).all(|(p, n)| {
+            if !p.contains('*') {
+                return p == n;
+            }
+            if n.starts_with('.') && !p.starts_with(".*") {
+                return false;
+            }
+            let pc: Vec<char> = p.chars().collect();
+            let nc: Vec<char> = n.chars().collect();
+            glob_match(&pc, &nc)
+        });
+        if ok {
             out.push(e.to_string());
         }
     }
@@ -374,13 +375,16 @@ pub fn run(ctx: &Ctx) -> Value {
         if mask & (1 << 6) != 0 && mask & (1 << 5) == 0 {
             continue;
         }
+        if mask & (1 << 8) != 0 && mask & (1 << 7) == 0 {
+            continue;
+        }
         pops.push(mask);
         let dir = format!("{}/{}", root, mask);
         std::fs::create_dir_all(&dir).unwrap();
         for (i, e) in POP.iter().enumerate() {
             if mask & (1 << i) != 0 {
-                if *e == "d" {
-                    std::fs::create_dir_all(format!("{}/d", dir)).unwrap();
+                if *e == "d" || *e == ".k" {
+                    std::fs::create_dir_all(format!("{}/{}", dir, e)).unwrap();
                 } else {
                     std::fs::write(format!("{}/{}", dir, e), b"x").unwrap();
                 }
